@@ -33,6 +33,19 @@ Theorem C17_line_of_one_zid : forall z t,
   split_on (ch " ") t = [t] -> targets z t = [t].
 Proof. exact scan_single_zid. Qed.
 
+(* The property-level reading of the scan. On an item line - kind character, the rest of the identity prefix
+   (priority, modify date, the note's own ZID, in any combination), an ORDINARY word, then anything - the targets
+   are exactly the link-like words and the ZIDs (bare or bracketed) after that word, in line order, and nothing of
+   the prefix is offered.  (Without the ordinary word the statement is false: C17_nonprimary_zid_refuted.) *)
+Theorem C17_targets_of_an_item_line : forall kind pre w1 rest,
+  prefix_like kind -> is_zid (strip_chars (S "[]") (strip_chars punct kind)) = false ->
+  Forall prefix_like pre -> ordinary w1 ->
+  scan false true false (kind :: pre ++ w1 :: rest) = all_targets rest.
+Proof. exact scan_item_line. Qed.
+(* on query pages every link-like word and every ZID is a target, whatever precedes it *)
+Theorem C17_query_page_targets : forall ws first found, scan true first found ws = all_targets ws.
+Proof. exact scan_zoq. Qed.
+
 (* full statement about non-primary ZIDs is FALSE of the faithful model *)
 Theorem C17_nonprimary_zid_refuted :
   targets false (S "- 240101#05 x [240101#02]") = [] /\
@@ -48,6 +61,8 @@ Print Assumptions C17_option_k.
 Print Assumptions C17_option_last.
 Print Assumptions C17_prompt_lists_targets_in_order.
 Print Assumptions C17_single_target_opened_directly.
+Print Assumptions C17_targets_of_an_item_line.
+Print Assumptions C17_query_page_targets.
 Print Assumptions C17_line_of_one_link.
 Print Assumptions C17_line_of_one_zid.
 Print Assumptions C17_nonprimary_zid_refuted.
